@@ -309,6 +309,10 @@ class RepeatCase:
         if n_override is not None:
             self.count_text, self.n = g.lit(n_override), n_override
         if end_in_body:
+            # '.end' cuts the written-out text inside the first copy: keep every definition before it
+            self.before, self.after = list(self.consts), []
+            if self.base_mode == "last":
+                self.base_mode = "first"
             pos = r.randrange(len(self.body) + 1)
             self.body.insert(pos, ("s", r.choice([".end", "end"])))
             if self.n < 2:
